@@ -58,6 +58,28 @@ func (w *vbiWorker) checkValue(v uint32) string {
 	return ""
 }
 
+// checkValueStalling feeds the streaming decoder from a plain io.Reader (no
+// ReadByte) that returns (0, nil) before every byte and delivers the last
+// byte together with io.EOF.
+func (w *vbiWorker) checkValueStalling(v uint32) string {
+	enc := ref.VBI(v)
+	var steps []guard.Step
+	for i := range enc {
+		steps = append(steps, guard.Step{N: 0})
+		s := guard.Step{N: 1}
+		if i == len(enc)-1 {
+			s.Err = "EOF"
+		}
+		steps = append(steps, s)
+	}
+	sr := &guard.ScriptReader{Data: enc, Steps: steps}
+	got, rn, err := mq.VerifVBIRead(sr)
+	if err != nil || got != v || rn != int64(len(enc)) {
+		return fmt.Sprintf("streaming decoder on %x (value %d) from a reader that stalls with (0,nil) and ends with data+EOF: value=%d read=%d err=%v", enc, v, got, rn, err)
+	}
+	return ""
+}
+
 // checkSeq: both decoders agree with the reference on value or rejection.
 func (w *vbiWorker) checkSeq(s []byte) (mustReject bool, msg string) {
 	rv, rn, rerr := ref.DecodeVBI(s)
@@ -94,6 +116,9 @@ func checkC15(c caseC15) (sig, msg string) {
 	pan := guard.Call(func() {
 		if c.Value != nil {
 			m = w.checkValue(*c.Value)
+			if m == "" {
+				m = w.checkValueStalling(*c.Value)
+			}
 		} else {
 			_, m = w.checkSeq(c.Seq)
 		}
@@ -258,6 +283,10 @@ func TestC15(t *testing.T) {
 					continue
 				}
 				if m := w.checkValue(uint32(v)); m != "" {
+					failValue(uint32(v), m)
+					return
+				}
+				if m := w.checkValueStalling(uint32(v)); m != "" {
 					failValue(uint32(v), m)
 					return
 				}
